@@ -1391,7 +1391,7 @@ def obligations(tier):
     def sparse_sum_body(cx, bad=False):
         n = NSS[cx.choose('n', len(NSS))]
         qs = cirq.LineQubit.range(n)
-        la = SP4[cx.choose('P4', len(SP4))] if n == 4 else choose_letters(cx, 'P', n)
+        la = SP4[cx.choose('P4', len(SP4))] if (n == 4 and quick) else choose_letters(cx, 'P', n)
         cfg = cx.choose('config', len(SPCFG))
         okind, extra, nterms = SPCFG[cfg]
         qmenu = [q for q in SPQ[n] if q is not None or cfg < 2]  # the merge / cancellation case runs in two of the four configurations
@@ -1424,7 +1424,7 @@ def obligations(tier):
     add(
         'sparse.pauli_sum',
         sparse_sum_body,
-        'PauliSum.sparse_matrix(qubits) and .matrix(qubits) of 2-3 term sums: P over every string on 2-3 qubits / 10 four-qubit strings (up to four Y factors), Q over 5 strings or equal to P (merge; cancellation rho_a == rho_b is a fork and leaves fewer terms / the empty sum), optional third term; 3 qubit orders, optional extra idle qubit inside the order, default qubits; coefficients rho*w with SYMBOLIC rho in [0.25, 2] on fixed complex directions; vs the sum of coefficient * kron matrices (overlapping entries of different terms are summed: COO duplicates)',
+        'PauliSum.sparse_matrix(qubits) and .matrix(qubits) of 2-3 term sums: P over every string on 2-3 qubits / ' + ('10 four-qubit strings' if quick else 'every four-qubit string') + ' (up to four Y factors), Q over 2-3 strings per size (multi-Y, diagonal) or, on 2 qubits, equal to P (merge; cancellation rho_a == rho_b is a fork and leaves fewer terms / the empty sum), third term in half of the configurations; 4 configurations of (qubit order identity / reversed / rotated, extra idle qubit inside the order, 2 or 3 terms), default qubits; coefficients rho*w with SYMBOLIC rho in [0.25, 2] on fixed complex directions; vs the sum of coefficient * kron matrices (overlapping entries of different terms are summed: COO duplicates)',
         points=pts(4, **{'choose:n': [0, 1, 2, 0], 'choose:P': [6, 42, 0, 9], 'choose:P4': [0, 0, 3, 0], 'choose:Q': [0, 1, 1, 2], 'choose:config': [0, 1, 2, 1], 'ar': [0.5, 0.5, 1.25, 0.75], 'br': [0.75, 0.5, 0.5, 0.75], 'cr': [1.5, 0.25, 1.0, 0.5]}),
         weight=9,
         opts={'depth_limit': 4000},
@@ -1454,28 +1454,29 @@ def obligations(tier):
 
     # qubit orders: None = argument not passed (sorted qubits); 'e' = an extra idle qubit that the circuit does not touch
     SEV_ORDERS = {2: [None, (1, 0), (1, 'e', 0)], 3: [(2, 0, 1), (1, 2, 0), (0, 'e', 2, 1)]}
-    SEV_P = {2: [(1, 3), (2, 0), (0, 1), (3, 2)], 3: [(1, 3, 0), (2, 0, 3), (0, 1, 2), (3, 2, 1)]}
+    # observables: qubit-asymmetric strings (a wrong qubit map / qubit order changes the value)
+    SEV_P = {2: [(1, 3), (2, 0), (3, 2)], 3: [(1, 3, 0), (2, 0, 3), (0, 1, 2)]}
     SEV_Q = {2: (0, 2), 3: (3, 0, 1)}
     SEV_BASIS = {2: [1, 2], 3: [5, 3], 4: [6, 9]}
-    # symbolic initial vector cos(a)|b1> + e^{i pi b} sin(a)|b2>: (b1, b2) as qubit values (q0, q1[, q2]) that differ on a qubit other
+    # symbolic initial vector g cos(a)|b1> + e^{i pi b} sin(a)|b2>: (b1, b2) as qubit values (q0, q1[, q2]) that differ on a qubit other
     # than the target of X**x, and the value of the idle wire
     SEV_PAIRS = {2: [((0, 1), (1, 0), 1), ((1, 1), (1, 0), 0)], 3: [((0, 0, 1), (1, 1, 0), 1), ((1, 0, 1), (1, 1, 1), 0)]}
 
-    def sev_initial(cx, n, wires, kind):
+    def sev_initial(cx, n, wires, kind, pick=None):
         """initial state over the register `wires` (axes in qubit_order): (argument handed to the simulator, tensor)"""
         m = len(wires)
         if kind == 0:
-            b = SEV_BASIS[m][cx.choose('basis', 2)]
+            b = SEV_BASIS[m][cx.choose('basis', 2) if pick is None else pick]
             t = np.zeros((2,) * m, dtype=complex)
             t.reshape(-1)[b] = 1
             return b, t
-        b1, b2, idle = SEV_PAIRS[n][cx.choose('pair', 2)]
+        b1, b2, idle = SEV_PAIRS[n][cx.choose('pair', 2) if pick is None else pick]
 
         def index(bits):
             return int(''.join(str(idle if w == 'e' else bits[w]) for w in wires), 2)
 
         t = normalised_state(cx, m, (index(b1), index(b2)))
-        return t, t
+        return t.copy(), t
 
     def sev_setup(cx, n, symbolic_u=True):
         qs = cirq.LineQubit.range(n)
@@ -1493,10 +1494,10 @@ def obligations(tier):
             psi = EM.apply_matrix_to_axes(Mx, psi, [pos[i] for i in on])
         return psi
 
-    def sev_observables(cx, qs, wires, form):
+    def sev_observables(cx, qs, wires, form, bad=False, nletters=3):
         """(observables argument, [matrix over the register per returned value])"""
         n = len(qs)
-        la = SEV_P[n][cx.choose('P', len(SEV_P[n]))]
+        la = SEV_P[n][0 if bad else cx.choose('P', nletters)]
         lb = SEV_Q[n]
         a, b = cx.real('ar', 0.25, CBOX), cx.real('br', -CBOX, -0.25)
 
@@ -1538,22 +1539,29 @@ def obligations(tier):
             return (cx.real('t', -TBOX, TBOX), cx.real('v', -TBOX, TBOX)), (cx.real('w', -TBOX, TBOX), cx.real('z', -TBOX, TBOX))
         return (cx.real('t', -TBOX, TBOX), 0.5), (cx.real('w', -TBOX, TBOX), -0.75)
 
-    def sev_sv_body(cx, bad=False):
-        n = 2 + cx.choose('n', 2)
-        kind = cx.choose('init', 3)
+    # (initial-state kind, observable/entry form, which basis state / pair): kind 0 basis index, 1 symbolic vector (ndarray),
+    # 2 the symbolic vector inside a StateVectorSimulationState
+    SEV_CFG = [(k, f, p) for k in (0, 1) for f in range(4) for p in (0, 1)] + [(2, 0, 0), (2, 1, 1)]
+
+    def sev_sv_body(cx, bad=False, n=2):
+        kind, form, pick = SEV_CFG[cx.choose('config', len(SEV_CFG))]
+        if bad and not (form == 2 and pick == 0):
+            cx.assume(False)  # the twin needs one refutation, not the whole family
         qs, ops_, steps_of, wires, oq, pos = sev_setup(cx, n, symbolic_u=(kind == 0))
-        form = cx.choose('form', 4)
-        init, psi0 = sev_initial(cx, n, wires, min(kind, 1))
+        init, psi0 = sev_initial(cx, n, wires, min(kind, 1), pick)
+        arr = init if kind == 1 else None
         if kind == 2:
             # the same symbolic vector handed over as a simulation-state object over the ordered qubits
-            init = cirq.StateVectorSimulationState(initial_state=psi0.copy(), qubits=oq if oq is not None else qs, dtype=np.complex128)
-        observables, mats = sev_observables(cx, qs, wires, form)
+            init = cirq.StateVectorSimulationState(initial_state=init, qubits=oq if oq is not None else qs, dtype=np.complex128)
+        observables, mats = sev_observables(cx, qs, wires, form, bad)
         vals = sev_values(cx, symbolic_y=(kind == 0))
         kw = {'initial_state': init}
         if oq is not None:
             kw['qubit_order'] = oq
         sim = cirq.Simulator(dtype=np.complex128)
         out = sev_call(cx, sim, form, cirq.Circuit(ops_), observables, kw, vals)
+        if arr is not None:
+            cx.close(arr, psi0, label='the caller\'s initial_state array is not modified')
         for ri, (got, (vx, vy)) in enumerate(out):
             cx.check(len(got) == len(mats), label='one value per observable')
             psi = sev_state(steps_of(vx, vy), psi0, pos).reshape(-1)
@@ -1561,27 +1569,42 @@ def obligations(tier):
                 e = PA.expectation_sv(psi, M)
                 cx.close(got[k], e + 0.01 if (bad and k == len(mats) - 1 and ri == len(out) - 1) else e, label=f'Simulator expectation value [resolver {ri}][observable {k}]')
 
-    add(
-        'expect.simulator_arguments',
-        sev_sv_body,
-        'cirq.Simulator.simulate_expectation_values (dict / ParamResolver), _sweep and _sweep_iter (two resolvers) on 2- and 3-qubit circuits with sympy-parameterised gates resolved to SYMBOLIC values plus a directly symbolic exponent; NON-DEFAULT initial_state: basis index (2 per register size), a SYMBOLIC normalised entangled state vector (ndarray) and the same vector inside a StateVectorSimulationState; qubit_order: default / permuted / with an extra idle qubit; observables: list [PauliSum, PauliString], bare PauliString, bare PauliSum, [Z(q) operation, P - Q] with symbolic real coefficients, P from 4 qubit-asymmetric strings; vs explicit <psi|O|psi> of documented matrices applied to the initial state in register order',
-        weight=12,
-        opts={'max_paths': 40000, 'auto_points': 4},
+    def SEV_PTS(k, **kw):
+        extra = {'t': [0.3, 1.0, -2.6, 0.5, 3.25, -1.0], 'v': [1.7, -0.4], 'w': [-0.9, 2.0, 0.125], 'z': [0.6, -3.5], 'u': [-0.7, 1.0, 2.3], 'sa': [0.4, -1.3, 2.9], 'sb': [0.35, -1.6], 'ar': [0.5, 1.75], 'br': [-0.75, -1.5, -0.3]}
+        extra.update(kw)
+        return pts(k, **extra)
+
+    SEVD = (
+        'sympy-parameterised gates X**x, ZPow(y) resolved to SYMBOLIC values (dict / ParamResolver / two resolvers per sweep) plus a directly symbolic CZPow(u), CNOT, H; '
+        'NON-DEFAULT initial_state: basis index (2 per register size), a SYMBOLIC normalised superposition g cos(a)|b1> + e^(i pi b) sin(a)|b2> of two basis states (2 pairs, entangled; ndarray, '
+        'caller\'s array must stay unmodified) and the same vector inside a StateVectorSimulationState; qubit_order: default / permuted / with an extra idle qubit; observables: list [PauliSum, PauliString], '
+        'bare PauliString, bare PauliSum, [Z(q) operation, P - Q] with SYMBOLIC real coefficients, P from 3 qubit-asymmetric strings; entry points simulate_expectation_values, _sweep, _sweep_iter; '
+        'vs explicit <psi|O|psi> of the documented matrices applied to the initial state in register order'
     )
+    for n_ in (2, 3):
+        add(
+            f'expect.simulator_arguments.q{n_}',
+            lambda cx, bad=False, n_=n_: sev_sv_body(cx, bad, n_),
+            f'cirq.Simulator expectation-value entry points on a {n_}-qubit circuit: ' + SEVD,
+            points=SEV_PTS(6, **{'choose:config': [1, 10, 13, 16, 6, 15], 'choose:order': [1, 2, 0, 2, 2, 1], 'choose:P': [0, 1, 2, 1, 0, 2]}),
+            weight=12,
+            opts={'max_paths': 40000},
+        )
+
+    DM_FLIP = 0.25
 
     def sev_dm_body(cx, bad=False):
         n = 2
-        kind = cx.choose('init', 2)
-        qs, ops_, steps_of, wires, oq, pos = sev_setup(cx, n, symbolic_u=(kind == 0))
         form = cx.choose('form', 4)
-        init, psi0 = sev_initial(cx, n, wires, kind)
-        init0 = None if isinstance(init, int) else init.copy()
-        observables, mats = sev_observables(cx, qs, wires, form)
+        if bad and form != 2:
+            cx.assume(False)
+        qs, ops_, steps_of, wires, oq, pos = sev_setup(cx, n, symbolic_u=True)
+        init, psi0 = sev_initial(cx, n, wires, 0, pick=(form + len(wires)) % 2)  # both basis states of a register size occur with every order
+        observables, mats = sev_observables(cx, qs, wires, form, bad, nletters=2)
         vals = sev_values(cx, symbolic_y=False)
         # a bit-flip channel with fixed probability in the middle of the circuit: the final state is MIXED,
         # rho = (1-p) |psi_0><psi_0| + p |psi_1><psi_1| with psi_1 = the circuit with X inserted (documented mixture)
-        FLIP = 0.25
-        ops_ = ops_[:2] + [cirq.bit_flip(FLIP)(qs[1])] + ops_[2:]
+        ops_ = ops_[:2] + [cirq.bit_flip(DM_FLIP)(qs[1])] + ops_[2:]
         kw = {'initial_state': init}
         if oq is not None:
             kw['qubit_order'] = oq
@@ -1594,28 +1617,114 @@ def obligations(tier):
             # valid state, and any rejection on real numpy, is a failure
             if cx.mode != 'concrete' and 'positive semidefinite' in str(e):
                 raise
-            cx.check(False, label=f'valid initial state / final density matrix rejected: {str(e)[:80]}')
+            cx.check(False, label=f'valid final density matrix rejected: {str(e)[:80]}')
             return
-        if init0 is not None:
-            cx.close(init, init0, label='initial_state array not modified')
         for ri, (got, (vx, vy)) in enumerate(out):
             cx.check(len(got) == len(mats), label='one value per observable')
             steps = steps_of(vx, vy)
             psi_a = sev_state(steps, psi0, pos).reshape(-1)
             psi_b = sev_state(steps[:2] + [(D.X(1.0), [1])] + steps[2:], psi0, pos).reshape(-1)
             for k, M in enumerate(mats):
-                e = (1 - FLIP) * PA.expectation_sv(psi_a, M) + FLIP * PA.expectation_sv(psi_b, M)
+                e = (1 - DM_FLIP) * PA.expectation_sv(psi_a, M) + DM_FLIP * PA.expectation_sv(psi_b, M)
                 cx.close(got[k], e + 0.01 if (bad and k == len(mats) - 1 and ri == len(out) - 1) else e, label=f'DensityMatrixSimulator expectation value [resolver {ri}][observable {k}]')
 
     add(
         'expect.density_matrix_simulator_arguments',
         sev_dm_body,
-        'cirq.DensityMatrixSimulator.simulate_expectation_values / _sweep / _sweep_iter on the 2-qubit circuit with a bit_flip(0.25) channel in the middle (mixed final state), symbolic resolver value x (and symbolic u from a basis state), initial_state = basis index or SYMBOLIC state vector, qubit_order default / permuted / with an idle qubit, four observable forms: tr(rho O) by explicit sums over the documented mixture; the PSD validation runs on over-approximated eigenvalues (both outcomes explored)',
+        'cirq.DensityMatrixSimulator.simulate_expectation_values / _sweep / _sweep_iter on the 2-qubit circuit X**x, CNOT, bit_flip(0.25), ZPow(y), CZPow(u), H (MIXED final state), SYMBOLIC resolver values of x (two resolvers per sweep; y fixed per resolver) and symbolic u, initial_state = basis index (2 per register size), qubit_order default / permuted / with an idle qubit, four observable forms with symbolic real coefficients (P from 2 qubit-asymmetric strings): tr(rho O) by explicit sums over the documented mixture. The PSD validation inside expectation_from_density_matrix runs on over-approximated eigenvalues (both outcomes explored; its rejection is the declared expected ValueError in symbolic mode, a failure on real numpy)',
+        points=SEV_PTS(4, **{'choose:form': [0, 1, 2, 3], 'choose:order': [0, 1, 2, 1], 'choose:P': [0, 1, 0, 1]}),
         weight=12,
         expected=(ValueError,),
-        opts={'max_paths': 40000, 'auto_points': 4},
+        opts={'max_paths': 40000},
+    )
+
+    def sev_measure_body(cx, bad=False):
+        # terminal / non-terminal measurements and permit_terminal_measurements.  The measured qubit q2 is in the basis
+        # state |1> and not entangled, so the outcome is certain: no random choice is involved and the post-measurement
+        # state is the pre-measurement state.
+        qs = cirq.LineQubit.range(3)
+        simk = cx.choose('simulator', 2)
+        where = cx.choose('measurement', 3)  # 0 terminal, 1 followed by another operation on q2 (not terminal), 2 followed by a later moment on ANOTHER qubit (still terminal)
+        permit = cx.choose('permit', 3)  # 0 argument not passed, 1 False, 2 True
+        entry = cx.choose('entry', 3)
+        if bad and not (permit == 2 and entry == 0):
+            cx.assume(False)
+        t = cx.real('t', -TBOX, TBOX)
+        a, b = cx.real('ar', 0.25, CBOX), cx.real('br', -CBOX, -0.25)
+        ops_ = [(cirq.X**SX)(qs[0]), cirq.X(qs[2]), cirq.CNOT(qs[0], qs[1]), cirq.measure(qs[2], key='m')]
+        steps = [(D.X(t), [0]), (D.X(1.0), [2]), (D.CX(1.0), [0, 1])]
+        if where == 1:
+            ops_.append(cirq.Z(qs[2]))  # the measurement is not terminal any more
+            steps.append((D.Z(1.0), [2]))
+        elif where == 2:
+            ops_.append(cirq.H(qs[1]))  # later moment on ANOTHER qubit: the measurement of q2 is still terminal
+            steps.append((D.H(1.0), [1]))
+        terminal = where != 1
+        order = (2, 0, 1)
+        oq = [qs[i] for i in order]
+        pos = {i: order.index(i) for i in range(3)}
+        la, lb = (3, 1, 3), (2, 2, 0)
+        observables = [mk_ps(qs, la, a) + mk_ps(qs, lb, b), cirq.Z(qs[2])]
+        mats = [PA.add(PA.string_matrix([la[i] for i in order], a), PA.string_matrix([lb[i] for i in order], b)), PA.string_matrix([(0, 0, 3)[i] for i in order], 1)]
+        sim = (cirq.Simulator if simk == 0 else cirq.DensityMatrixSimulator)(dtype=np.complex128, seed=CertainOutcomePrng())
+        kw = {'qubit_order': oq}
+        if permit:
+            kw['permit_terminal_measurements'] = permit == 2
+        rs = cirq.ParamResolver({'x': t})
+        try:
+            if entry == 0:
+                got = sim.simulate_expectation_values(cirq.Circuit(ops_), observables, rs, **kw)
+            elif entry == 1:
+                got = sim.simulate_expectation_values_sweep(cirq.Circuit(ops_), observables, [rs], **kw)[0]
+            else:
+                got = list(sim.simulate_expectation_values_sweep_iter(cirq.Circuit(ops_), observables, [rs], **kw))[0]
+        except ValueError as e:
+            if 'positive semidefinite' in str(e) and cx.mode != 'concrete':
+                raise
+            cx.check('terminal measurement' in str(e), label=f'unexpected ValueError: {str(e)[:80]}')
+            cx.check(terminal and permit != 2, label='ValueError although the measurement is not terminal or terminal measurements are permitted')
+            if bad:
+                cx.check(False, label='twin')
+            return
+        cx.check(not (terminal and permit != 2), label='terminal measurement without permit_terminal_measurements=True must raise ValueError')
+        psi0 = np.zeros((2, 2, 2), dtype=complex)
+        psi0[0, 0, 0] = 1
+        psi = sev_state(steps, psi0, pos).reshape(-1)
+        for k, M in enumerate(mats):
+            e = PA.expectation_sv(psi, M)
+            cx.close(got[k], e + 0.01 if (bad and k == 0) else e, label=f'expectation value with a measurement in the circuit [observable {k}]')
+
+    add(
+        'expect.simulator_terminal_measurements',
+        sev_measure_body,
+        'permit_terminal_measurements of Simulator and DensityMatrixSimulator simulate_expectation_values / _sweep / _sweep_iter: a circuit X**x (SYMBOLIC resolver value), X, CNOT with a measurement of a qubit in a certain basis state that is terminal / followed by an operation on the same qubit / followed by a later moment on another qubit; argument absent / False / True: ValueError exactly for terminal measurements that are not permitted, otherwise the expectation values of [PauliSum, Z(q2)] (symbolic coefficients, permuted qubit_order) on the (unchanged) post-measurement state',
+        points=SEV_PTS(6, **{'choose:simulator': [0, 1, 0, 1, 0, 1], 'choose:measurement': [0, 1, 2, 0, 2, 1], 'choose:permit': [2, 0, 1, 0, 2, 2], 'choose:entry': [0, 1, 2, 1, 2, 0]}),
+        weight=6,
+        expected=(ValueError,),
+        opts={'max_paths': 40000},
     )
     return obs
+
+
+class CertainOutcomePrng(np.random.RandomState):
+    """generator handed to the simulators as `seed` where a measured qubit is in a basis state: `choice(n, p=probs)` returns the
+    outcome whose probability is 1 and fails loudly for any other probability vector (no random choice is ever made)"""
+
+    def __init__(self):
+        super().__init__(0)
+
+    def choice(self, a, size=None, replace=True, p=None):
+        vals = []
+        for e in np.asarray(p, dtype=object).reshape(-1):
+            if hasattr(e, 'is_const'):
+                if not e.is_const():
+                    raise AssertionError('C14 harness: measurement with a symbolic outcome probability')
+                e = e.const_value()
+            vals.append(complex(e).real)
+        hits = [i for i, v in enumerate(vals) if abs(v - 1) < 1e-9]
+        if len(hits) != 1 or size is not None:
+            raise AssertionError(f'C14 harness: measurement outcome is not certain (probabilities {vals})')
+        return hits[0]
 
 
 def normalised_state(cx, m, pair):
@@ -1664,7 +1773,10 @@ LEVEL = (
     'the Pauli masks as solver integers. The Pauli letter on each qubit of a PauliString, the qubit order / qubit map and the Clifford '
     'conjugator are finite selectors that are exhausted (PauliString keeps gate objects in dicts, so letters cannot be solver variables): with '
     'respect to letters this is solver-driven bounded exhaustive exploration. z3 decides entry-wise agreement with matrices built in the '
-    'harness by kron of the 2x2 Paulis, explicit products, C^dagger P C from documented gate matrices and explicit expectation sums.'
+    'harness by kron of the 2x2 Paulis, explicit products, C^dagger P C from documented gate matrices and explicit expectation sums. '
+    'sparse_matrix() of strings and sums runs with symbolic coefficients on a documented-behaviour model of the scipy.sparse coo/csr containers; '
+    'simulate_expectation_values / _sweep / _sweep_iter of Simulator and DensityMatrixSimulator run with symbolic resolver values, symbolic observable '
+    'coefficients, non-default initial states (basis index, a symbolic two-parameter state vector), qubit orders and permit_terminal_measurements.'
 )
 
 
@@ -1673,6 +1785,8 @@ def main(tier, seed=0, replay=None, only=None, procs=None):
     bounds = {
         'symbolic': 'complex coefficients (re, im in [-2, 2]); exponents / rotation angles in [-4, 4]; all state-vector amplitudes (re, im in [-1, 1]) and all entries of a Hermitian matrix handed in as density matrix; gate exponents t, u of the simulated circuit; Pauli masks of _vectorized_pauli_mul_phase as solver integers in 0..3',
         'enumerated_selectors': 'Pauli letter per qubit of every PauliString / DensePauliString (bounded exhaustive), qubit orders and qubit maps (all permutations), Clifford conjugator and placement, op-tree sequence and nesting, operand form (PauliString / mutable / dict / op list / nested list), mutability, integer powers',
+        'sparse_matrices': 'PauliString.sparse_matrix: every letter tuple on registers of 1-4 qubits (0-4 Y factors), all qubit orders up to 3 qubits / 5 orders on 4, list / generator / default qubits, sub-register agreement with matrix(); symbolic complex coefficient. PauliSum.sparse_matrix / matrix: 2-3 terms on 2-4 qubits (P: all strings on 2-3 qubits, ' + ('10 strings' if q else 'all strings') + ' on 4; Q from 2-3 strings per size or equal to P on 2 qubits), 4 (order, idle qubit, number of terms) configurations, coefficients rho*w with symbolic rho in [0.25, 2]. scipy.sparse coo/csr containers are MODELLED for symbolic entries from the scipy documentation (symx/sparse_model.py: duplicates summed, row-major canonical order, scalar multiples, toarray); compared: csr format, shape and every entry of toarray()',
+        'simulate_expectation_values': 'Simulator: 2- and 3-qubit circuits X**x, CNOT, ZPow(y), CZPow(u)[, H] with x, y resolved from one dict / ParamResolver or two resolvers (symbolic values in [-4,4]) and u directly symbolic; initial_state = basis index (2 per register size; x, y, u symbolic) or the symbolic normalised two-parameter family (0.6+0.8i) cos(a)|b1> + e^{i pi b} sin(a)|b2> for 2 pairs of basis states (as ndarray and inside a StateVectorSimulationState; x symbolic, y, u fixed, no H); qubit_order default / permuted / with an idle qubit; observables [PauliSum, PauliString], bare PauliString, bare PauliSum, [Z(q), P - Q] with symbolic real coefficients (|c| in [0.25, 2]), P from 3 qubit-asymmetric strings; entries simulate_expectation_values, _sweep, _sweep_iter. DensityMatrixSimulator: the 2-qubit circuit with bit_flip(0.25) (mixed state), basis-index initial states, x (two resolvers) and u symbolic, P from 2 strings. permit_terminal_measurements: 3-qubit circuit with a measurement of a qubit in a certain basis state (terminal / not terminal / terminal with a later moment elsewhere) x argument absent / False / True x 3 entry points x 2 simulators. Expected values: explicit <psi|O|psi> / mixture sums over documented matrices applied to the initial state in register order',
         'qubits': {'matrix/relabel': 3 if q else 4, 'binary laws (products, commutes, mutable)': 2 if q else 3, 'conjugation': 2 if q else 3, 'dense lengths': '1..2' if q else '1..3', 'expectation states': 2 if q else 3, 'phasors': 2 if q else 3, 'sums / exponentials': 2},
         'clifford_menu': 'all 24 single-qubit Cliffords (from_xz_map), H, S, S**-1, X**+-0.5, Y**+-0.5, X, Y, Z, CZ, CNOT, CY, SWAP, ISWAP, ISWAP**-1, XX**0.5, YY**0.5, ZZ**-0.5; every placement; op trees: all sequences of 3 from ' + ('6 (third from 3)' if q else '8') + ' placed non-commuting Cliffords, flat and nested lists',
         'pauli_sum_coefficients': 'rho*w with symbolic real rho in [-2,2] (>= 0.25 outside sum.add_sub) and fixed unit complex directions w (0.6+0.8i, -0.6-0.8i, i, 0.8-0.6i' + ('' if q else '; second set 1, i, -0.28+0.96i, -i outside sum.add_sub') + '); in products exactly one operand is symbolic, its partner has fixed complex coefficients (both roles run); sums of <= 3 terms; P over ' + ('5' if q else '16') + ' strings, Q over 5 strings or equal to P',
@@ -1688,9 +1802,13 @@ def main(tier, seed=0, replay=None, only=None, procs=None):
             'PauliString.__pow__ / __rpow__ with symbolic coefficient modulus or symbolic base (cmath.polar, math.log of symbolic values)',
             'np.exp(PauliString) spelling (selected by `ufunc == np.exp`, the shimmed np is not that ufunc object); `math.e ** P` is the same code and is run',
             'validation of states (check_preconditions=True: norm / eigenvalue tests via sqrt and LAPACK) - kernels are reached through the public methods with check_preconditions=False; simulate_expectation_values uses the default validation on states normalised by construction',
+            'the positive-semidefiniteness test inside expectation_from_density_matrix (numpy.linalg.eigvalsh): over-approximated by unconstrained ordered eigenvalue variables with sum = trace (symx/eigvalsh_model.py); both outcomes are explored, its ValueError is a declared expected outcome in symbolic mode and a failure on the concrete validation points (real LAPACK), so "a valid density matrix is never rejected by the PSD test" is not decided symbolically',
+            'DensityMatrixSimulator.simulate_expectation_values with a symbolic initial state vector / density matrix (the Hermiticity / trace / norm validation conditions over sqrt atoms are not decided by z3 in reasonable time): basis-index initial states only; fully general symbolic initial vectors for cirq.Simulator (two-parameter superpositions of two basis states instead; with them only one resolver value is symbolic)',
+            'stored structure (nnz, explicit zeros, eliminate_zeros) of sparse results with symbolic coefficients: only format, shape and the dense values are compared; aliasing of caller arrays is decided on the concrete validation points only (the object-array proxies copy)',
+            'measurements with uncertain outcome inside simulate_expectation_values (the measured qubit is in a basis state; a generator that only accepts probability-1 outcomes is handed in as seed)',
             'PauliSumExponential.matrix() beyond finding.sum_exponential_matrix (open defect); exponentials are compared as the product of the factors they iterate',
             'zero-qubit PauliStringPhasor(cirq.PauliString(), exponent_pos=u) without explicit qubits: decomposes to [] (its global phase e^{i pi u} is lost; reported, left open)',
-            'sparse_matrix (scipy), from_boolean_expression (sympy), ProjectorString/ProjectorSum, PauliMeasurementGate, PauliInteractionGate (C03), work/observable_* grouping and measurement, pauli_string_decomposition.unitary_to_pauli_string, LinearCombinationOfGates/Operations, qubit counts beyond those listed, complex64',
+            'from_boolean_expression (sympy), ProjectorString/ProjectorSum, PauliMeasurementGate, PauliInteractionGate (C03), work/observable_* grouping and measurement, pauli_string_decomposition.unitary_to_pauli_string, LinearCombinationOfGates/Operations, qubit counts beyond those listed, complex64',
         ],
     }
     return run_check(PID, tier, 'checks.C14', SHIMS, LEVEL, BASE_ASSUMPTIONS, bounds, seed=seed, replay=replay, only=only, procs=procs)
